@@ -2,6 +2,7 @@
 import re
 
 from engine.rulelib import *
+from engine.core import AnchorMissing
 from engine.run import site_desc
 
 EXPLANATION = (
@@ -64,8 +65,8 @@ def r2(ctx):
                       'failure registration uses %s' % a[1:], s.where(), sample=a[1:])
     hi = ctx.P.body(SRV + '::handle_inner')
     ok = one(hi.aggregates(r'server::HandleInnerData$'), 'HandleInnerData construction')
-    v = N(hi.rvalue_term(ok.data['rv']))
-    ctx.check('handle_inner|result-fields', re.match(r'^HandleInnerData\{action: action\{.*\}, reason: reason\{.*\}, version: version, nts: nts\{.*\}, packet: ', v) is not None,
+    v = S(hi.rvalue_term(ok.data['rv']))
+    ctx.check('handle_inner|result-fields', re.match(r'^HandleInnerData\{action: \w+\{.*\}, reason: \w+\{.*\}, version: .*, nts: \w+\{.*\}, packet: ', v, re.S) is not None,
               'HandleInnerData built from %s' % v[:200], ok.where(), sample=v[:260])
 
 
@@ -78,9 +79,11 @@ def r3(ctx):
         na = N(hi.call_args(s)[2])
         resp = a[4]
         ctx.check('handle_inner|%s|response-ignore' % site_desc(hi, s),
-                  resp == 'ServerResponse::Ignore{}' or (resp.startswith('action{') and hi.must_pass(s.bb, fact_cmp('Eq', r'^action\{', r'^ServerResponse::Ignore\{\}$'))),
+                  resp == 'ServerResponse::Ignore{}' or (re.match(r'^\w+\{Server::intended_action\(', resp) is not None and hi.must_pass(s.bb, fact_cmp('Eq', r'^\w+\{Server::intended_action\(', r'^ServerResponse::Ignore\{\}$'))),
                   'early registration reports response %s' % resp, s.where(), sample=a[1:])
-        ctx.check('handle_inner|%s|nts-flag' % site_desc(hi, s), a[2] == '0' or na.startswith('nts'),
+        lit_ = one(hi.aggregates(r'server::HandleInnerData$'), 'HandleInnerData construction')
+        nts_l = root_local(hi, lit_.data['rv']['ops'][lit_.data['rv']['fields'].index('nts')])
+        ctx.check('handle_inner|%s|nts-flag' % site_desc(hi, s), a[2] == '0' or (nts_l is not None and root_local(hi, s.data['args'][2]) == nts_l),
                   'early registration passes nts=%s' % a[2], s.where(), sample=a[2])
 
 
@@ -89,7 +92,10 @@ def r4(ctx):
              'constant true is reachable only with cookie None) and, without a cookie, true exactly for action == NTSNak; it is never reassigned '
              'between its computation and the Ok result')
     b = ctx.P.body(SRV + '::handle_inner')
-    nl = one([i for i, l in enumerate(b.locals) if l.get('name') == 'nts' and l['ty'] == 'bool'], 'local nts')
+    lit = one(b.aggregates(r'server::HandleInnerData$'), 'HandleInnerData construction')
+    nl = root_local(b, lit.data['rv']['ops'][lit.data['rv']['fields'].index('nts')])
+    if nl is None or b.locals[nl]['ty'] != 'bool':
+        raise AnchorMissing('the bool local handed over as HandleInnerData.nts')
     defs = [d for d in b.defs()[nl] if d[2] != 'partial']
     no_cookie = fact_is(r'as Ok\)\.0\.1', 'None')
     has_cookie = fact_is(r'as Ok\)\.0\.1', 'Some')
@@ -106,7 +112,7 @@ def r4(ctx):
                   'NTS-protected DENY) is counted as a plain request' % v[:80], '%s:%s' % (b.file, b.blocks[d[0]]['stmts'][d[1]]['line'] if d[1] is not None else b.blocks[d[0]]['term']['line']),
                   sample=v[:160])
         if v != '0':
-            ctx.check('handle_inner|nts-def|expr-form', re.match(r'^\(action\{.*\} == ServerResponse::NTSNak\{\}\)$', v) is not None,
+            ctx.check('handle_inner|nts-def|expr-form', re.match(r'^\(\w+\{Server::intended_action\(.*\} == ServerResponse::NTSNak\{\}\)$', v, re.S) is not None,
                       'without a cookie the NTS flag is `%s`, expected action == NTSNak' % v[:100], sample=v[:160])
     ctx.check('handle_inner|nts-def|has-true-arm', n_true >= 1, 'no definition sets the NTS flag for requests with a cookie', sample=[S(b._def_term(d, ()))[:80] for d in defs])
     # every path on which a cookie exists defines nts = true: the cookie-Some edge is followed by a true definition before the Ok result
